@@ -5,7 +5,7 @@ the sender lists) with the C07 transfer model (Model/Transfer.lean: sender objec
 cut, receiver acceptance): the ref update of a fetch/push happens only after `receiveAll` succeeded
 (that order is checked on the implementation by the C13 crash runs), so closure of the updated ref
 is closure of the receiver's object set after the transfer.
-PARTIAL: one want per theorem, negotiation rounds are abstracted to "the acknowledged commons are
+PARTIAL: negotiation rounds are abstracted to "the acknowledged commons are
 commits the receiver holds"; HTTP framing, gzip, sessions and the reference server are exercised by
 the correspondence runs (Driver/C09.lean evaluates the same closure clauses on both repositories'
 observed state), not modelled.
@@ -13,6 +13,7 @@ observed state), not modelled.
 import WrglModel.Model.Sync
 import WrglModel.Lemmas.C09
 import WrglModel.Lemmas.C09E2E
+import WrglModel.Lemmas.C09Tables
 import WrglModel.Gen.Facts
 namespace Wrgl
 
@@ -52,6 +53,46 @@ theorem C09_transfer_closed (s : SrcRepo) (d : DstRepo) (hwf : s.commits.wf = tr
       (∀ a, Reach s.commits a w → (d'.commits.get? a).isSome = true) ∧
       (∀ k, d.has k = true → d'.has k = true) :=
   fetch_end_to_end s d hwf hac commons tts depth w hw hheld hcom hblk _ fuel cl tl sums steps hwalk st objs hi ho
+
+/-- Tables: with the tables the finder selects (those of the commits visited within the requested
+    depth, all when depth = 0), after the transfer the receiver holds the table of EVERY commit of
+    the want's history that lies within the depth — given that the source has those table objects
+    and that the receiver holds the tables of the acknowledged common commits (a shallow receiver
+    must not have a shallow commit acknowledged as common: that is exactly the clause the seeded
+    change C09-m1 breaks). -/
+theorem C09_tables_within_depth (s : SrcRepo) (d : DstRepo) (hwf : s.commits.wf = true) (hac : Acyclic s.commits)
+    (commons : List Nat) (depth : Nat) (w : Nat) (hw : (s.commits.get? w).isSome = true)
+    (hheld : ∀ c, (d.commits.get? c).isSome = true → ∀ p ∈ parentsOf s.commits c, (d.commits.get? p).isSome = true)
+    (hcom : ∀ c ∈ commons, (s.commits.get? c).isSome = true ∧ (d.commits.get? c).isSome = true)
+    (hblk : ∀ c ∈ commons, ∀ cm, s.commits.get? c = some cm → ∀ ti, s.table? cm.table = some ti → ∀ b ∈ ti.blocks, b ∈ d.blocks)
+    (hctbl : ∀ c ∈ commons, ∀ cm, s.commits.get? c = some cm → d.has (.tbl cm.table) = true)
+    (fuel : Nat) (cl tl sums : List Nat) (steps : Nat)
+    (hwalk : walkWant Facts.finderRevisitsWithinDepth s.commits commons [] depth false fuel [(w, 0)] [] [] [] 0 = .ok (some (cl, tl, sums, steps)))
+    (st : SenderSt) (objs : List ObjKey)
+    (hi : senderInit s commons = .ok st) (ho : senderObjs s (tablesOf s.commits tl) st cl = .ok objs)
+    (d' : DstRepo) (hrecv : receiveAll s d objs = .ok d')
+    (c dist : Nat) (hc : (c, dist) ∈ unfoldTree s.commits (fun x => commons.contains x) (s.commits.length + 1) w 0)
+    (hd : depth = 0 ∨ dist < depth)
+    (cm : Commit) (hcm : s.commits.get? c = some cm) (hsrc : (s.table? cm.table).isSome = true) :
+    d'.has (.tbl cm.table) = true :=
+  fetch_tables_within_depth s d hwf hac commons depth w hw hheld hcom hblk hctbl _ fuel cl tl sums steps hwalk st objs hi ho d' hrecv c dist hc hd cm hcm hsrc
+
+/-- Several wants in one exchange (what `CommitsToSend` returns for one call of `enqueueWants`):
+    every object is accepted and afterwards the receiver holds every ancestor of every want that
+    was not left pending; nothing it held is lost. -/
+theorem C09_transfer_closed_multi (s : SrcRepo) (d : DstRepo) (hwf : s.commits.wf = true) (hac : Acyclic s.commits)
+    (tts : List Nat) (depth fuel : Nat) (ws : List Nat) (hws : ∀ w ∈ ws, (s.commits.get? w).isSome = true)
+    (f f' : Finder) (pending : List Nat) (hf0 : f.commitLists = [])
+    (hheld : ∀ c, (d.commits.get? c).isSome = true → ∀ p ∈ parentsOf s.commits c, (d.commits.get? p).isSome = true)
+    (hcom : ∀ c ∈ f.commons, (s.commits.get? c).isSome = true ∧ (d.commits.get? c).isSome = true)
+    (hblk : ∀ c ∈ f.commons, ∀ cm, s.commits.get? c = some cm → ∀ ti, s.table? cm.table = some ti → ∀ b ∈ ti.blocks, b ∈ d.blocks)
+    (henq : enqueueWants Facts.finderRevisitsWithinDepth s.commits depth false fuel ws f [] [] = .ok (f', pending))
+    (st : SenderSt) (objs : List ObjKey)
+    (hi : senderInit s f.commons = .ok st) (ho : senderObjs s tts st f'.commitLists.flatten = .ok objs) :
+    ∃ d', receiveAll s d objs = .ok d' ∧
+      (∀ w ∈ ws, w ∉ pending → ∀ a, Reach s.commits a w → (d'.commits.get? a).isSome = true) ∧
+      (∀ k, d.has k = true → d'.has k = true) :=
+  fetch_end_to_end_multi s d hwf hac tts depth fuel ws hws f f' pending hf0 hheld hcom hblk _ henq st objs hi ho
 
 /-- … and this is independent of how the object stream is cut into packfiles: for every size
     limit the concatenation of the packfiles is the stream. -/
